@@ -43,6 +43,36 @@ type Input struct {
 	Name string
 	V6   bool
 	B    []byte
+	EP   *entryPoint // nil: the packet decoder of the protocol version (dhcpv4.FromBytes / dhcpv6.FromBytes)
+}
+
+// entryPoint is any other exported decoding entry point: the message-level variants, single
+// options, option lists, DUIDs, label sets and every exported value type with a FromBytes method.
+type entryPoint struct {
+	name   string
+	goStmt string // Go statements decoding `buf` into v (for the emitted test)
+	decode func(buf []byte) (any, error)
+}
+
+type anyMsg struct{ v any }
+
+func (m anyMsg) snap() string { return snap.Any(m.v) }
+func (m anyMsg) encode() []byte {
+	if e, ok := m.v.(interface{ ToBytes() []byte }); ok {
+		return e.ToBytes()
+	}
+	return nil
+}
+
+func decodeIn(in Input, buf []byte) (message, error) {
+	if in.EP == nil {
+		return decode(in.V6, buf)
+	}
+	v, err := in.EP.decode(buf)
+	if err != nil {
+		return nil, err
+	}
+	return anyMsg{v}, nil
 }
 
 // pattern overwrites b in place.
@@ -110,6 +140,22 @@ func decode(v6 bool, buf []byte) (message, error) {
 }
 
 func goTest(in Input, hist string, over []byte) string {
+	if in.EP != nil {
+		return fmt.Sprintf(`func TestReplay(t *testing.T) {
+	in, _ := hex.DecodeString(%%q)
+	over, _ := hex.DecodeString(%%q) // what the buffer holds afterwards (%%s)
+	buf := append([]byte(nil), in...)
+%%s
+	if err != nil {
+		t.Fatal(err)
+	}
+	before := fmt.Sprintf("%%%%+v", v)
+	copy(buf, over) // the caller reuses its buffer (history %%s; for H2 overwrite the bytes returned by v.ToBytes() instead)
+	if after := fmt.Sprintf("%%%%+v", v); after != before {
+		t.Errorf("value changed:\n before %%%%s\n after  %%%%s", before, after)
+	}
+}`, fw.Hex(in.B), fw.Hex(over), hist, in.EP.goStmt, hist)
+	}
 	dec := "dhcpv4.FromBytes"
 	if in.V6 {
 		dec = "dhcpv6.FromBytes"
@@ -160,6 +206,13 @@ type counters struct {
 
 var cnt counters
 
+func versionOf(in Input) string {
+	if in.EP != nil {
+		return in.EP.name
+	}
+	return version(in.V6)
+}
+
 func version(v6 bool) string {
 	if v6 {
 		return "dhcpv6"
@@ -171,9 +224,11 @@ func report(c *fw.Ctx, in Input, order int64, hist, pat, clause string, s0, s1 s
 	path, av, bv, n := snap.Diff(s0, s1)
 	obs := snap.Observer(path)
 	if extra != "" { // the second encoding itself differs: the observer is the encoder
-		obs = version(in.V6) + ".ToBytes"
+		obs = versionOf(in) + ".ToBytes"
 	}
-	if obs == "" {
+	if in.EP != nil {
+		obs = in.EP.name
+	} else if obs == "" {
 		obs = version(in.V6)
 	} else if !strings.Contains(obs, ".") {
 		obs = version(in.V6) + "." + obs
@@ -215,7 +270,7 @@ func runInput(c *fw.Ctx, idx int, in Input, fixed []pattern, same []Input, other
 	var m message
 	var err error
 	buf := append([]byte(nil), in.B...)
-	if pv, stk := fw.Safe(func() { m, err = decode(in.V6, buf) }); pv != nil {
+	if pv, stk := fw.Safe(func() { m, err = decodeIn(in, buf) }); pv != nil {
 		c.Report(fw.Violation{Fingerprint: version(in.V6) + ".FromBytes|panic|" + fw.PanicSite(stk), Order: order, Scope: in.Name, Input: fw.Hex(in.B),
 			Observed: fmt.Sprintf("panic: %v at %s", pv, stk), Expected: "value or error"})
 		return
@@ -255,7 +310,7 @@ func runInput(c *fw.Ctx, idx int, in Input, fixed []pattern, same []Input, other
 		n++
 		guard("H1", pt.name, func() {
 			buf := append([]byte(nil), in.B...)
-			m, err := decode(in.V6, buf)
+			m, err := decodeIn(in, buf)
 			if err != nil {
 				return
 			}
@@ -268,9 +323,12 @@ func runInput(c *fw.Ctx, idx int, in Input, fixed []pattern, same []Input, other
 		// H2
 		n++
 		guard("H2", pt.name, func() {
-			m, err := decode(in.V6, append([]byte(nil), in.B...))
+			m, err := decodeIn(in, append([]byte(nil), in.B...))
 			if err != nil {
 				return
+			}
+			if in.EP != nil && in.EP != epMessage && in.EP != epRelay {
+				return // the statement's second clause is about the encoding of a message; option values may hand out their bytes
 			}
 			b1 := m.encode()
 			keep := append([]byte(nil), b1...)
@@ -292,12 +350,12 @@ func runInput(c *fw.Ctx, idx int, in Input, fixed []pattern, same []Input, other
 		n++
 		guard("H3", "then-decode("+o.Name+")", func() {
 			buf := append([]byte(nil), in.B...)
-			m, err := decode(in.V6, buf)
+			m, err := decodeIn(in, buf)
 			if err != nil {
 				return
 			}
 			k := copy(buf, o.B)
-			fw.Safe(func() { decode(o.V6, buf[:k]) }) // whatever it yields
+			fw.Safe(func() { decodeIn(o, buf[:k]) }) // whatever it yields
 			if s1 := m.snap(); s1 != s0 {
 				report(c, in, order, "H3", "then-decode("+o.Name+")", "source-aliasing", s0, s1, buf, "")
 			}
@@ -309,7 +367,7 @@ func runInput(c *fw.Ctx, idx int, in Input, fixed []pattern, same []Input, other
 // Corpus builds the input list: simplest (shortest) entries of each family first.
 func Corpus(thorough bool) []Input {
 	var out []Input
-	add6 := func(name string, b []byte) { out = append(out, Input{name, true, b}) }
+	add6 := func(name string, b []byte) { out = append(out, Input{Name: name, V6: true, B: b}) }
 	// (1) every corpus6 instance at top level (message and relay) and nested in each container and stack
 	ins := corpus6.Instances()
 	for _, x := range c06.Contexts6() {
@@ -360,7 +418,7 @@ func Corpus(thorough bool) []Input {
 	}
 	// (4) DHCPv4
 	for _, n := range V4Accessors() {
-		out = append(out, Input{n.Name, false, n.B})
+		out = append(out, Input{Name: n.Name, B: n.B})
 	}
 	for i, n := range c06.V4Structural() {
 		keep := false
@@ -375,14 +433,14 @@ func Corpus(thorough bool) []Input {
 			keep = has(n.Name, "/len1")
 		}
 		if keep {
-			out = append(out, Input{n.Name, false, n.B})
+			out = append(out, Input{Name: n.Name, B: n.B})
 		}
 	}
 	// DHCPv4 inside DHCPv6
 	for _, n := range c06.V4In6(V4Accessors()) {
 		add6(n.Name, n.B)
 	}
-	return out
+	return append(out, entryPointCorpus(out)...)
 }
 
 func has(s, sub string) bool { return strings.Contains(s, sub) }
